@@ -211,6 +211,78 @@ func c08Scope(name string, pe enum.Embed, patN int, patStride uint64, qe enum.Em
 		}}
 }
 
+// c08ShiftScope: the same small patterns and paths, translated by large vectors of both signs (pattern by t1,
+// path by t2; integer translation is exact). The result, translated back by t2+t1 (Sum) or t2-t1 (Diff), is held
+// against the same oracle on the base input: the sweep, the quad orientation tests and the union inside the
+// Minkowski functions must not depend on where the figures sit, as long as the coordinate sums stay in range.
+func c08ShiftScope(name string, pe enum.Embed, patN int, patStride uint64, qe enum.Embed, pathN int, pathClosed bool, pathStride uint64, shifts [][4]int64, level int) *drv.Scope {
+	var w offWorker
+	var pb, qb, pt, qt Path
+	nPat := (enum.PathCount(3, patN) + patStride - 1) / patStride
+	nPath := (enum.PathCount(3, pathN) + pathStride - 1) / pathStride
+	per := nPat * nPath
+	shift := func(dst, src Path, dx, dy int64) Path {
+		dst = dst[:0]
+		for _, p := range src {
+			dst = append(dst, Pt{X: p.X + dx, Y: p.Y + dy})
+		}
+		return dst
+	}
+	return &drv.Scope{Name: name, Level: level, Size: per * uint64(len(shifts)),
+		Show: func(idx uint64) any {
+			sh := shifts[idx/per]
+			return map[string]any{"pattern (before translation)": pathLit(enum.UnrankPath(idx%per%nPat*patStride, 3, patN, pe, nil)), "path (before translation)": pathLit(enum.UnrankPath(idx%per/nPat*pathStride, 3, pathN, qe, nil)),
+				"pattern translated by": []int64{sh[0], sh[1]}, "path translated by": []int64{sh[2], sh[3]}, "path closed": pathClosed, "operations": "MinkowskiSum64 and MinkowskiDiff64"}
+		},
+		Run: func(c *drv.Ctx, idx uint64) {
+			sh := shifts[idx/per]
+			pb = enum.UnrankPath(idx%per%nPat*patStride, 3, patN, pe, pb)
+			qb = enum.UnrankPath(idx%per/nPat*pathStride, 3, pathN, qe, qb)
+			pt, qt = shift(pt, pb, sh[0], sh[1]), shift(qt, qb, sh[2], sh[3])
+			nt := false
+			for _, isSum := range []bool{true, false} {
+				var out Paths
+				opn := "MinkowskiDiff64"
+				bx, by := sh[2]-sh[0], sh[3]-sh[1]
+				if isSum {
+					out = clipper.MinkowskiSum64(pt, qt, pathClosed)
+					opn = "MinkowskiSum64"
+					bx, by = sh[2]+sh[0], sh[3]+sh[1]
+				} else {
+					out = clipper.MinkowskiDiff64(pt, qt, pathClosed)
+				}
+				c.Exec(1)
+				c.Output(enum.HashPaths(out))
+				back := make(Paths, len(out))
+				for i, p := range out {
+					back[i] = shift(nil, p, -bx, -by)
+				}
+				kind, detail, saw := c08Check(&w, pb, qb, isSum, pathClosed, back)
+				if kind != "" {
+					c.Fail(kind, opn, "%s(pattern=%v, path=%v, isClosed=%v) [pattern %v translated by (%d,%d), path %v by (%d,%d)]; after translating the result back by (%d,%d): %s; result %v", opn, pt, qt, pathClosed, pb, sh[0], sh[1], qb, sh[2], sh[3], -bx, -by, detail, out)
+				}
+				if saw {
+					nt = true
+				}
+			}
+			if nt {
+				c.Nontriv()
+				c.Count("inputs_with_a_robustly_swept_point", 1)
+			}
+		}}
+}
+
+// translations (pattern dx,dy, path dx,dy): every coordinate, sum and difference of coordinates stays within 2^52,
+// the bound up to which C13 promises translation covariance (beyond it the engine's float64 steps lose the units digit:
+// with sums at 2^60 the results are visibly wrong, which the statement's "coordinate sums stay in range" does not cover)
+var c08Shifts = [][4]int64{
+	{-1000, 700, -3000, -2000},                           // both signs, small
+	{1<<31 + 3, -(1 << 32) - 5, -(1 << 33) + 7, 1 << 31}, // products of coordinates leave int64
+	{-(1 << 45) + 1, 1<<44 + 9, 1<<46 + 3, -(1 << 45) - 11},
+	{1<<51 - 1, -(1 << 51) + 1, -(1 << 51) + 3, 1<<51 - 5},   // differences at 2^52, sums small
+	{1<<51 - 100, -(1 << 51), 1<<51 - 101, -(1 << 51) + 101}, // sums at 2^52, differences small
+}
+
 func init() {
 	drv.Register(&drv.Check{
 		ID:    "C08",
@@ -230,7 +302,9 @@ func init() {
 					c08Scope("minkowski/every 28th of P(3,4)/E_ax x closed triangles (every 10th)/E_ax20", enum.Eax, 4, 28, enum.Eax20, 3, true, 10, 3),
 					c08Scope("minkowski/every 10th of P(3,3)/E_ax x single points/E_ax20", enum.Eax, 3, 10, enum.Eax20, 1, false, 1, 1),
 					// 4-point patterns include explicitly closed rings a,b,c,a (pattern[0] == pattern[last])
-					c08Scope("minkowski/every 7th of P(3,4)/E_ax x open 2-point paths (every 5th)/E_ax20", enum.Eax, 4, 7, enum.Eax20, 2, false, 5, 3))
+					c08Scope("minkowski/every 7th of P(3,4)/E_ax x open 2-point paths (every 5th)/E_ax20", enum.Eax, 4, 7, enum.Eax20, 2, false, 5, 3),
+					c08ShiftScope("minkowski translated/every 7th of P(3,3)/E_sh x open 2-point paths (every 2nd)/E_ax20 x 5 translations", enum.Esh, 3, 7, enum.Eax20, 2, false, 2, c08Shifts, 2),
+					c08ShiftScope("minkowski translated/every 10th of P(3,3)/E_ax x closed triangles (every 10th)/E_sh20 x 5 translations", enum.Eax, 3, 10, enum.Esh20, 3, true, 10, c08Shifts, 3))
 				return out
 			}
 			for _, pe := range []enum.Embed{enum.Eax, enum.Esh} {
@@ -241,7 +315,9 @@ func init() {
 					c08Scope("minkowski/P(3,3)/"+pe.Name+" x closed triangles/E_sh20", pe, 3, 1, enum.Esh20, 3, true, 1, 2),
 					c08Scope("minkowski/every 10th of P(3,4)/"+pe.Name+" x closed triangles/E_ax20", pe, 4, 10, enum.Eax20, 3, true, 1, 3),
 					c08Scope("minkowski/P(3,4)/"+pe.Name+" x open 2-point paths/E_ax20", pe, 4, 1, enum.Eax20, 2, false, 1, 3),
-					c08Scope("minkowski/P(3,3)/"+pe.Name+" x closed quads (every 28th)/E_ax20", pe, 3, 1, enum.Eax20, 4, true, 28, 3))
+					c08Scope("minkowski/P(3,3)/"+pe.Name+" x closed quads (every 28th)/E_ax20", pe, 3, 1, enum.Eax20, 4, true, 28, 3),
+					c08ShiftScope("minkowski translated/P(3,3)/"+pe.Name+" x open 2-point paths/E_ax20 x 5 translations", pe, 3, 1, enum.Eax20, 2, false, 1, c08Shifts, 2),
+					c08ShiftScope("minkowski translated/every 4th of P(3,3)/"+pe.Name+" x closed triangles (every 4th)/E_sh20 x 5 translations", pe, 3, 4, enum.Esh20, 3, true, 4, c08Shifts, 3))
 			}
 			return out
 		},
